@@ -614,8 +614,23 @@ class Exec(Ops):
     return Closure(n, env, '<lambda>')
 
   def e_JoinedStr(self, n, env):
-    # f-strings: only as opaque message text (exception messages); content is dropped.
-    return Lit('<fstring>')
+    # f-strings: kept as a list of parts; only summaries that understand them look inside
+    # (message texts of exceptions / logging are dropped)
+    parts = []
+    for v in n.values:
+      if isinstance(v, ast.Constant):
+        parts.append(v.value)
+      else:
+        try:
+          parts.append(self.eval(v.value, env))
+        except OutsideSubset:
+          parts.append(None)
+    hook = getattr(self.spec, 'fstring_hook', None)
+    if hook is not None:
+      r = hook(self, parts)
+      if r is not None:
+        return r
+    return FString(parts)
 
   def e_ListComp(self, n, env):
     return self.comprehension(n, env, 'list')
